@@ -89,6 +89,12 @@ def base_spec(rng,
     om = rng.choice(list(out_modes))
     if om:
         opts.append(om)
+    if rng.random() < 0.1:
+        opts += ['--replace-by-variable-mode', 'dec']
+    if rng.random() < 0.03:
+        opts.append('--dump-diffs')
+    if rng.random() < 0.02:
+        opts.append('--dump-config')
     v = rng.random()
     if v < 0.1:
         opts.append('-v')
